@@ -16,6 +16,8 @@ PROPS = {
                              "store clock strictly increasing between successive writes"]),
     "C02": dict(harness="gcs", trusted=GCS_TRUST, assumptions=["generation numbers compared by rank"]),
     "C10": dict(harness="gcs", trusted=GCS_TRUST, assumptions=["store clock strictly increasing between successive writes (collisions are measured and reported)"]),
+    "C11": dict(harness="gcs", trusted=GCS_TRUST, assumptions=["page tokens compared by the name they decode to"],
+                oracle_codes={1: "a complete pagination does not yield exactly the matching names once, in order", 2: "collapsed prefixes of a complete pagination are not exactly the distinct prefixes, once", 3: "a page holds more than maxResults entries"}),
     "C15": dict(harness="gcs", trusted=GCS_TRUST, assumptions=["generation numbers compared by rank"]),
     "C01": dict(harness="bt", trusted=BT_TRUST, assumptions=["server clock and sample coins are inputs"]),
     "C03": dict(harness="bt", trusted=BT_TRUST, assumptions=["server clock and sample coins are inputs"]),
@@ -38,7 +40,30 @@ def _has_zero_cond(case, step):
     return False
 
 
+def _segs_order_differs(names):
+    ns = sorted(set(names), key=lambda n: n.encode("utf-8"))
+    return sorted(ns, key=lambda n: [x.encode("utf-8") for x in n.split("/")]) != ns
+
+
+def _delim_listing(case, step):
+    """GCS-1: listing with a delimiter; the token comes from the last item."""
+    r = case["prog"][step]
+    return r.get("kind") == "list" and r.get("delim", "") != ""
+
+
+def _file_order(case, step):
+    """GCS-2: file store, names whose per-directory walk order differs from bytewise order."""
+    if case.get("store") != "file":
+        return False
+    names = [r.get("n") or (r.get("up") or {}).get("name") for r in case["prog"][:step]
+             if r.get("kind") in ("upload_media", "upload_multipart", "resumable_init", "compose")]
+    names += [r.get("n2") for r in case["prog"][:step] if r.get("kind") == "copy"]
+    return _segs_order_differs([n for n in names if n])
+
+
 KNOWN_MATCHERS = {
+    "GCS-1": _delim_listing,
+    "GCS-2": _file_order,
     "GCS-7": _has_zero_cond,
 }
 
@@ -59,6 +84,8 @@ TEXT = {
              level="Theorems about the filter model: the derivative matcher decides the regular language; the evaluator refines the cell-list semantics of every supported filter; invalid arguments are rejected by the validator for all trees." + _CORR, note=_NOTE),
  "C10": dict(technique="Coq invariant proof (generation counter monotone, metageneration laws) + differential correspondence on random histories, both stores",
              level="Theorems over all histories of the handler model with the store clock as a strictly increasing counter: every content write gets a generation above everything handed out before and metageneration 1; a patch bumps only metageneration; reads and failures change nothing." + _CORR, note=_NOTE + " Assumes the stores' wall clock strictly increases between successive writes."),
+ "C11": dict(technique="Coq proof (pagination complete/duplicate-free/sorted for the memory store without delimiter; early-exit soundness) + exhaustive enumeration of name-universe subsets x prefixes x delimiters x page sizes with a whole-pagination oracle, both stores",
+             level="Theorems about the listing walk: with an ascending walk order the prefix abort and cursor skip lose nothing, a page is the first maxResults matching names, and following tokens yields every matching name exactly once in order (memory store, no delimiter). Delimiter pagination (GCS-1) and the file store's walk order (GCS-2) are refuted by witnesses and recorded as findings; the oracle still checks every complete pagination against the API semantics." + _CORR, note=_NOTE),
  "C12": dict(technique="Coq proof (branch selection of CheckAndMutateRow vs filter semantics) + differential correspondence, 3 engines",
              level="Theorems about the CheckAndMutateRow model: predicate_matched iff the predicate filter yields a cell on the current row, exactly the selected mutation list is applied with MutateRow semantics, errors leave the row unchanged." + _CORR, note=_NOTE),
  "C13": dict(technique="Coq proof (big-endian codec round trip, rule fold vs spec, wrap-around) + differential correspondence, 3 engines",
